@@ -1,3 +1,4 @@
+#[cfg(bc_envelope_verif)] use crate::verif_std as std;
 use std::sync::{Once, Mutex};
 use paste::paste;
 
